@@ -6,8 +6,10 @@ import (
 	"fmt"
 
 	"git.defalsify.org/vise.git/cache"
+	"git.defalsify.org/vise.git/engine"
 	"git.defalsify.org/vise.git/render"
 	"vharness/app"
+	"vharness/apps"
 	"vharness/vrt"
 )
 
@@ -211,7 +213,48 @@ func Page(v *vrt.Ctx) {
 	}
 }
 
+// Engine: whatever the engine hands to the client through Flush is at most
+// Config.OutputSize bytes, over histories of symbolic inputs and a symbolic
+// output size, on the stock applications.
+func Engine(v *vrt.Ctx) {
+	k := v.Param("K")
+	which := v.Param("app")
+	ctx := context.Background()
+	size := v.U32("outputsize")
+	v.Assume(size > 0 && size <= 4096)
+	cfg := engine.Config{Root: "root", FlagCount: 4, SessionId: "s1", OutputSize: size}
+	en := engine.NewEngine(cfg, apps.Get(which))
+	for i := 0; i < k; i++ {
+		var in []byte
+		if i > 0 {
+			in = v.Bytes("input", v.Choice("inputlen", 3))
+			for _, b := range in {
+				v.Assume(b != '{' && b < 0x80)
+			}
+		}
+		cont, err := en.Exec(ctx, in)
+		w := &app.Sink{}
+		_, ferr := en.Flush(ctx, w)
+		v.Observe("len", len(w.S))
+		// F10: when the session ends after a HALT the engine writes the last
+		// loaded value after the sized page
+		v.Finding("F10-exit-value-at-session-end", err == nil && !cont)
+		if ferr == nil {
+			v.Assert(uint64(len(w.S)) <= uint64(size), "C01/engine-output-fits-output-size")
+			v.Cover("C01/engine-page")
+		} else {
+			v.Assert(len(w.S) == 0, "C01/failed-flush-writes-nothing")
+			v.Cover("C01/engine-render-fails")
+		}
+		if !cont {
+			break
+		}
+	}
+	v.Cover("C01/engine-history-done")
+}
+
 var Harnesses = map[string]func(*vrt.Ctx){
-	"Check": Check,
-	"Page":  Page,
+	"Check":  Check,
+	"Page":   Page,
+	"Engine": Engine,
 }
